@@ -6,7 +6,10 @@ import (
 	"verifharness/internal/vlib"
 )
 
-const bigSize = 4 << 20 // "multi-megabyte"
+const (
+	bigSize    = 4 << 20 // "multi-megabyte"
+	mediumSize = 150000  // several copy buffers
+)
 
 var errnoChoices = []string{"EIO", "ENOSPC"}
 
@@ -51,8 +54,8 @@ func genCases(cfg vlib.Cfg, crossOK bool) []caseSpec {
 		}
 		out = append(out, sp)
 	}
-	perTarget := cfg.N(5, 40)
-	bigEvery := cfg.N(5, 8) // one multi-megabyte case among this many
+	perTarget := cfg.N(4, 24)
+	bigEvery := cfg.N(4, 8) // one multi-megabyte case among this many
 	for ti, t := range allTargets {
 		for i := 0; i < perTarget; i++ {
 			r := vlib.NewRand(cfg.Seed, "c17-case-"+t, uint64(i))
@@ -61,6 +64,12 @@ func genCases(cfg vlib.Cfg, crossOK bool) []caseSpec {
 			sp.NewSize = pickSize(r, false)
 			if allowBig {
 				sp.NewSize = bigSize
+				// targets that copy through a 32 KiB buffer issue one write (= one crash point) per
+				// buffer: the quick tier uses a medium size there, the thorough tier 4 MiB in a few cases
+				manyWrites := t == tGzip || t == tZip || t == tDownload || t == tCreate
+				if manyWrites && (!cfg.Thorough() || i >= 2*bigEvery) {
+					sp.NewSize = mediumSize
+				}
 			}
 			sp.OldSize = pickSize(r, allowBig && r.Bool())
 			if sp.NewSize == 0 && sp.OldSize == 0 {
@@ -106,6 +115,9 @@ func genCases(cfg vlib.Cfg, crossOK bool) []caseSpec {
 				}
 			case tCopy, tReplace:
 				sp.Opts = []string{"nil", "mode", "tempdir", "mode+tempdir", "zero"}[(i+1)%5]
+				if i%8 == 2 && crossOK {
+					sp.Opts, sp.TmpMount = "xtempdir", "cross"
+				}
 			case tFstree:
 				sp.Depth = 1 + i%3
 				sp.ParentExists = i%2 == 0
@@ -139,6 +151,11 @@ func genCases(cfg vlib.Cfg, crossOK bool) []caseSpec {
 				}
 			}
 			add(sp)
+			// mechanism cross-check (thorough): the same case once more under the ptrace stepper
+			if cfg.Thorough() && t != tDownload && i%5 == 0 {
+				sp.Mech = "ptrace"
+				add(sp)
+			}
 		}
 	}
 	return out
@@ -152,7 +169,7 @@ func readerCases(cfg vlib.Cfg) []caseSpec {
 		sp := caseSpec{Case: 9000 + ti, Target: t, Seed: cfg.Seed*7 + uint64(ti), Name: randName(r), Phase: "readers",
 			Old: "present", OldMode: 0o644, Mode: 0o644, SrcMode: 0o644, TmpMount: "same", Opts: "nil", Reader: "bytes",
 			OldSize: r.Range(100, 3000), NewSize: r.Range(20000, 90000), Depth: 2, ParentExists: true, Variant: "complete"}
-		sp.Rounds = cfg.N(1200, 20000)
+		sp.Rounds = cfg.N(300, 8000)
 		switch t {
 		case tSymlink:
 			sp.Old = "link"
@@ -160,11 +177,11 @@ func readerCases(cfg vlib.Cfg) []caseSpec {
 		case tCreate:
 			sp.Reader = "chunked"
 		case tGzip:
-			sp.Old, sp.Variant, sp.Rounds = "absent", "suffix", cfg.N(60, 600)
+			sp.Old, sp.Variant, sp.Rounds = "absent", "suffix", cfg.N(40, 600)
 		case tZip:
-			sp.Old, sp.Variant, sp.Rounds, sp.Entries, sp.NewSize = "absent", "ok", cfg.N(30, 200), 4, 5000
+			sp.Old, sp.Variant, sp.Rounds, sp.Entries, sp.NewSize = "absent", "ok", cfg.N(20, 200), 4, 5000
 		case tDownload:
-			sp.Old, sp.Rounds = "absent", cfg.N(60, 600)
+			sp.Old, sp.Rounds = "absent", cfg.N(40, 600)
 		}
 		out = append(out, sp)
 	}
